@@ -3,6 +3,13 @@
 // index, "MNEM" for the instruction name): their own text is decided by h_x86fmt.cpp / h_x86mem.cpp / the C13 name harnesses. What is
 // decided here: every option that is set is named exactly once, in a fixed place, nothing that is not set is named, every operand up to
 // the first empty one appears once and in order, the mask register / {z} / {1toN} / rounding decorations say what was given.
+//
+// How the cases are cut (measured, see spec.py): a piece of text whose LENGTH is symbolic makes every later append of the real code a case
+// split over the positions it may land on (and over the growth path of the String). So
+//   * the option words (symbolic within a group, the other groups off) are decided on lines without operands - nothing follows them but
+//     the mnemonic token; one line with every option set and one with none fix the order across the groups;
+//   * lines with operands have constant options (template bitmask OPT); symbolic there are only things whose text has a constant length:
+//     register ids, the immediate, the mask register id, the rounding mode, the broadcast value within {2,4,8} or within {16,32,64}.
 #include <asmjit/x86.h>
 #include <asmjit/x86/x86formatter_p.h>
 #include <asmjit/x86/x86instapi_p.h>
@@ -13,16 +20,19 @@
 using namespace asmjit;
 using vfmt::Cur; using vfmt::make_string; using vfmt::observe_text;
 
-static const Operand_* ops_base;
+static Operand_ ops[6];   // static and typed: every slot is assigned field by field in each run (no memset over the array)
 static int n_operand_calls, n_name_calls;
 static uint32_t last_name_id;
 ASMJIT_BEGIN_SUB_NAMESPACE(x86)
 namespace FormatterInternal {
 Error ASMJIT_CDECL format_operand(String& sb, FormatFlags, const BaseEmitter*, Arch, const Operand_& op) noexcept {
   n_operand_calls++;
-  size_t idx = size_t(&op - ops_base);
-  char tok[2] = {'O', idx < 6 ? char('0' + idx) : 'x'};   // 'x': not an element of the operand array (the {reg} of rep, a copy)
-  if (idx >= 6 && op.is_reg()) { tok[0] = 'X'; tok[1] = char('a' + (op.id() & 15)); }
+  // which element of the operand array was handed over: decided by address, slot by slot (no pointer subtraction)
+  char d = 'x';   // 'x': not an element of the operand array (the {reg} of rep is a temporary)
+  if (&op == &ops[0]) d = '0'; else if (&op == &ops[1]) d = '1'; else if (&op == &ops[2]) d = '2';
+  else if (&op == &ops[3]) d = '3'; else if (&op == &ops[4]) d = '4'; else if (&op == &ops[5]) d = '5';
+  char tok[2] = {'O', d};
+  if (d == 'x' && op.is_reg()) { tok[0] = 'X'; tok[1] = char('a' + (op.id() & 15)); }
   return sb.append(tok, 2);
 }
 Error ASMJIT_CDECL format_register(String& sb, FormatFlags, const BaseEmitter*, Arch, RegType reg_type, uint32_t reg_id) noexcept {
@@ -38,101 +48,111 @@ Error ASMJIT_CDECL inst_id_to_string(InstId inst_id, InstStringifyOptions, Strin
 }
 ASMJIT_END_SUB_NAMESPACE
 
+static inline void set_op(unsigned i, const Operand_& o) {
+  ops[i]._signature = o._signature; ops[i]._base_id = o._base_id; ops[i]._data[0] = o._data[0]; ops[i]._data[1] = o._data[1];
+}
+
+constexpr uint32_t O(InstOptions o) { return uint32_t(o); }
+constexpr uint32_t VEX = O(InstOptions::kX86_Vex), VEX3 = O(InstOptions::kX86_Vex3), EVEX = O(InstOptions::kX86_Evex), MODRM = O(InstOptions::kX86_ModRM),
+  MODMR = O(InstOptions::kX86_ModMR), SHORT = O(InstOptions::kShortForm), LONG = O(InstOptions::kLongForm), XACQ = O(InstOptions::kX86_XAcquire),
+  XREL = O(InstOptions::kX86_XRelease), LOCK = O(InstOptions::kX86_Lock), REP = O(InstOptions::kX86_Rep), REPNE = O(InstOptions::kX86_Repne),
+  REX = O(InstOptions::kX86_Rex), ZMASK = O(InstOptions::kX86_ZMask), ER = O(InstOptions::kX86_ER), SAE = O(InstOptions::kX86_SAE), ERMASK = O(InstOptions::kX86_ERMask);
+constexpr uint32_t ALL_WORDS = VEX | VEX3 | EVEX | MODRM | MODMR | SHORT | LONG | XACQ | XREL | LOCK | REP | REPNE | REX;
+
 // NOPS: operands handed over (the rest of the 6 slots are none): register, memory, immediate, register, memory, immediate.
-// GROUP: which options are symbolic (the others are off) - the formatter handles them one after the other, independently; with all of them
-// symbolic at once the length of the text before every later piece is symbolic and no verdict is reached:
-//   0: {vex} {vex3} {evex}   1: {modrm} {modmr} short long   2: xacquire xrelease lock   3: rep repnz {reg} rex
-//   4: mask register and {z}   5: {er}/{sae} and the rounding mode   6: broadcast of the memory operand
-template<unsigned NOPS, int GROUP> static void line_case() {
-  Operand_ ops[6];
-  for (unsigned i = 0; i < 6; i++) ops[i].reset();
-  uint32_t bcst[6] = {0, 0, 0, 0, 0, 0};
-  if (GROUP == 6) { bcst[1] = nondet_u8() & 7; V_ASSUME(bcst[1] <= 6); }
-  for (unsigned i = 0; i < NOPS; i++) {
-    if (i % 3 == 0) ops[i] = x86::zmm(nondet_u8() & 31);
-    else if (i % 3 == 1) { x86::Mem m = x86::ptr(x86::rax); m.set_broadcast(x86::Mem::Broadcast(bcst[i])); ops[i] = m; }
-    else ops[i] = Imm(int64_t(nondet_u64()));
+// OPT: options that are set (constants); SYM: options that are symbolic (the rest is off). KMODE: 0 no extra register, 1 a mask register with a
+// symbolic id 1..7, 2 the {reg} of rep (ecx). BC: broadcast of the memory operand at index 1: 0 none, 1 symbolic in {1to2,1to4,1to8}, 2 symbolic
+// in {1to16,1to32,1to64}. IDMODE: 0 a fixed valid id, 1 any valid id, 2 any invalid id.
+template<unsigned NOPS, uint32_t OPT, uint32_t SYM, unsigned KMODE, unsigned BC, unsigned IDMODE> static void line_case() {
+  uint32_t bcst = 0;
+  if (BC == 1) { bcst = nondet_u8() & 3; if (bcst == 0) bcst = 3; }
+  if (BC == 2) { bcst = 4 + (nondet_u8() & 3); if (bcst == 7) bcst = 6; }
+  for (unsigned i = 0; i < 6; i++) {
+    if (i >= NOPS) set_op(i, Operand());
+    else if (i % 3 == 0) set_op(i, x86::zmm(nondet_u8() & 31));
+    else if (i % 3 == 1) { x86::Mem m = x86::ptr(x86::rax); if (i == 1) m.set_broadcast(x86::Mem::Broadcast(bcst)); set_op(i, m); }
+    else set_op(i, Imm(int64_t(nondet_u64())));
   }
-  InstOptions opt = InstOptions::kNone;
-  uint32_t kreg = 0;   // mask register id, 0 = none
-  bool rep_reg = false;
-  static const InstOptions kGroups[6] = {
-    InstOptions::kX86_Vex | InstOptions::kX86_Vex3 | InstOptions::kX86_Evex,
-    InstOptions::kX86_ModRM | InstOptions::kX86_ModMR | InstOptions::kShortForm | InstOptions::kLongForm,
-    InstOptions::kX86_XAcquire | InstOptions::kX86_XRelease | InstOptions::kX86_Lock,
-    InstOptions::kX86_Rep | InstOptions::kX86_Repne | InstOptions::kX86_Rex,
-    InstOptions::kX86_ZMask,
-    InstOptions::kX86_ER | InstOptions::kX86_SAE | InstOptions::kX86_ERMask };
-  if (GROUP < 6) opt = InstOptions(nondet_u32()) & kGroups[GROUP];
-  if (GROUP == 3) rep_reg = nondet_bool();
-  if (GROUP == 4) kreg = nondet_u8() & 7;
-  BaseInst inst(x86::Inst::kIdAdd, opt);
-  uint32_t id = nondet_u32() % uint32_t(x86::Inst::_kIdCount);
-  inst._inst_id = id;
-  if (kreg) inst._extra_reg.init(x86::k(kreg));
-  if (rep_reg) inst._extra_reg.init(x86::ecx);
+  uint32_t opt = OPT;
+  if (SYM != 0) opt |= nondet_u32() & SYM;
+  uint32_t kreg = 0;
+  if (KMODE == 1) { kreg = nondet_u8() & 7; if (kreg == 0) kreg = 7; }
+  uint32_t id = x86::Inst::kIdVaddps;
+  if (IDMODE == 1) id = nondet_u32() % uint32_t(x86::Inst::_kIdCount);
+  if (IDMODE == 2) { id = nondet_u32(); if (id < uint32_t(x86::Inst::_kIdCount)) id += uint32_t(x86::Inst::_kIdCount); }
+  BaseInst inst(id, InstOptions(opt));
+  if (KMODE == 1) inst._extra_reg.init(x86::k(kreg));
+  if (KMODE == 2) inst._extra_reg.init(x86::ecx);
   FormatFlags ff = FormatFlags(nondet_u32() & 0x76Fu);   // kExplainImms off: the explanation of an immediate is commentary, not denotation
 
   String sb; make_string<255>(sb);
-  ops_base = ops; n_operand_calls = n_name_calls = 0; no_heap::active = true;
+  n_operand_calls = n_name_calls = 0; no_heap::n_calls = 0; no_heap::active = true;
   Error e = x86::FormatterInternal::format_instruction(sb, ff, nullptr, Arch::kX64, inst, Span<const Operand_>(ops, 6));
   no_heap::active = false;
   V_ASSERT(e == Error::kOk && no_heap::n_calls == 0, "x86 instruction line formatting succeeds within the buffer given");
-  V_ASSERT(n_name_calls == 1 && last_name_id == id, "the mnemonic printed is the one of the instruction id given");
 
-  auto has = [&](InstOptions o) { return Support::test(opt, o); };
+  auto has = [&](uint32_t o) { return (opt & o) != 0; };
   Cur c(sb.data(), sb.size());
-  if (has(InstOptions::kX86_Vex)) c.lit("{vex} ");
-  if (has(InstOptions::kX86_Vex3)) c.lit("{vex3} ");
-  if (has(InstOptions::kX86_Evex)) c.lit("{evex} ");
-  if (has(InstOptions::kX86_ModRM)) c.lit("{modrm} "); else if (has(InstOptions::kX86_ModMR)) c.lit("{modmr} ");
-  if (has(InstOptions::kShortForm)) c.lit("short ");
-  if (has(InstOptions::kLongForm)) c.lit("long ");
-  if (has(InstOptions::kX86_XAcquire)) c.lit("xacquire ");
-  if (has(InstOptions::kX86_XRelease)) c.lit("xrelease ");
-  if (has(InstOptions::kX86_Lock)) c.lit("lock ");
-  if (has(InstOptions::kX86_Rep) || has(InstOptions::kX86_Repne)) {
-    if (has(InstOptions::kX86_Rep)) c.lit("rep "); else c.lit("repnz ");
-    if (rep_reg) { c.lit("{X"); c.ch(char('a' + 1)); c.lit("} "); }   // ecx has id 1
+  if (IDMODE == 2) {
+    V_ASSERT(n_name_calls == 0, "no mnemonic is looked up for an instruction id outside the table");
+    c.lit("[InstId=#");
+    V_ASSERT(c.udec<10>() == id, "the number shown for an unknown instruction id is that id");
+    c.ch(']');
   }
-  if (has(InstOptions::kX86_Rex)) c.lit("rex ");
-  c.lit("MNEM");
-  unsigned shown = 0; bool ended = false;
-  for (unsigned i = 0; i < 6; i++) {
-    if (ended || ops[i].is_none()) { ended = true; continue; }
-    if (i == 0) c.ch(' '); else c.lit(", ");
-    c.ch('O'); c.ch(char('0' + i)); shown++;
-    if (i == 0) {
-      if (kreg) { c.lit(" {K"); c.ch(char('a' + uint32_t(RegType::kMask))); c.ch(char('0' + kreg)); c.ch('}'); if (has(InstOptions::kX86_ZMask)) c.lit("{z}"); }
-      else if (has(InstOptions::kX86_ZMask)) c.lit(" {z}");
+  else {
+    V_ASSERT(n_name_calls == 1 && last_name_id == id, "the mnemonic printed is the one of the instruction id given");
+    if (has(VEX)) c.lit("{vex} ");
+    if (has(VEX3)) c.lit("{vex3} ");
+    if (has(EVEX)) c.lit("{evex} ");
+    if (has(MODRM)) c.lit("{modrm} "); else if (has(MODMR)) c.lit("{modmr} ");
+    if (has(SHORT)) c.lit("short ");
+    if (has(LONG)) c.lit("long ");
+    if (has(XACQ)) c.lit("xacquire ");
+    if (has(XREL)) c.lit("xrelease ");
+    if (has(LOCK)) c.lit("lock ");
+    if (has(REP) || has(REPNE)) {
+      if (has(REP)) c.lit("rep "); else c.lit("repnz ");
+      if (KMODE == 1) { c.lit("{X"); c.ch(char('a' + kreg)); c.lit("} "); }
+      if (KMODE == 2) { c.lit("{X"); c.ch(char('a' + 1)); c.lit("} "); }   // ecx has id 1
     }
-    if (ops[i].is_mem() && bcst[i]) {
+    if (has(REX)) c.lit("rex ");
+    c.lit("MNEM");
+  }
+  for (unsigned i = 0; i < NOPS; i++) {
+    if (i == 0) c.ch(' '); else c.lit(", ");
+    c.ch('O'); c.ch(char('0' + i));
+    if (i == 0) {
+      if (KMODE == 1) { c.lit(" {K"); c.ch(char('a' + uint32_t(RegType::kMask))); c.ch(char('0' + kreg)); c.ch('}'); if (has(ZMASK)) c.lit("{z}"); }
+      else if (has(ZMASK)) c.lit(" {z}");
+    }
+    if (i == 1 && BC != 0) {
       c.lit(" {1to");
-      static const char bc[7][3] = {"", "2", "4", "8", "16", "32", "64"};
-      c.ch(bc[bcst[i]][0]); if (bcst[i] >= 4) c.ch(bc[bcst[i]][1]);
+      if (BC == 1) c.ch(bcst == 1 ? '2' : bcst == 2 ? '4' : '8');
+      else { c.ch(bcst == 4 ? '1' : bcst == 5 ? '3' : '6'); c.ch(bcst == 4 ? '6' : bcst == 5 ? '2' : '4'); }
       c.ch('}');
     }
   }
-  V_ASSERT(n_operand_calls == int(shown) + (rep_reg && (has(InstOptions::kX86_Rep) || has(InstOptions::kX86_Repne)) ? 1 : 0), "every operand up to the first empty one is printed exactly once");
-  if (has(InstOptions::kX86_ER)) {
-    uint32_t rc = (uint32_t(opt) >> 21) & 3;
-    c.lit(", {r"); c.ch("nduz"[rc]); c.lit("-sae}");
+  V_ASSERT(n_operand_calls == int(NOPS) + (KMODE != 0 && IDMODE != 2 && (has(REP) || has(REPNE)) ? 1 : 0), "every operand up to the first empty one is printed exactly once");
+  if (has(ER)) {
+    uint32_t rc = (opt >> 21) & 3;   // EVEX.L'L as rounding control: 00 nearest, 01 down, 10 up, 11 toward zero (SDM vol.2 2.7.5)
+    c.lit(", {r"); c.ch(rc == 0 ? 'n' : rc == 1 ? 'd' : rc == 2 ? 'u' : 'z'); c.lit("-sae}");
   }
-  else if (has(InstOptions::kX86_SAE)) c.lit(", {sae}");
+  else if (has(SAE)) c.lit(", {sae}");
   V_ASSERT(c.at_end(), "x86 instruction line names exactly the options, mnemonic, operands and decorations given");
-  observe_text<16>(sb);
+  observe_text<64>(sb);
   V_WITNESS("x86 line formatted");
 }
-HARNESS h_x86line_g0_n0() { line_case<0, 0>(); }
-HARNESS h_x86line_g0_n2() { line_case<2, 0>(); }
-HARNESS h_x86line_g1_n1() { line_case<1, 1>(); }
-HARNESS h_x86line_g2_n2() { line_case<2, 2>(); }
-HARNESS h_x86line_g3_n0() { line_case<0, 3>(); }
-HARNESS h_x86line_g3_n2() { line_case<2, 3>(); }
-HARNESS h_x86line_g4_n1() { line_case<1, 4>(); }
-HARNESS h_x86line_g4_n3() { line_case<3, 4>(); }
-HARNESS h_x86line_g5_n2() { line_case<2, 5>(); }
-HARNESS h_x86line_g5_n3() { line_case<3, 5>(); }
-HARNESS h_x86line_g6_n2() { line_case<2, 6>(); }
-HARNESS h_x86line_g6_n3() { line_case<3, 6>(); }
-HARNESS h_x86line_g4_n6() { line_case<6, 4>(); }
+// ---- option words: symbolic within a group, no operands ---------------------------------------------------------------------
+HARNESS h_x86line_w_vex() { line_case<0, 0, VEX | VEX3 | EVEX, 0, 0, 1>(); }
+HARNESS h_x86line_w_form() { line_case<0, 0, MODRM | MODMR | SHORT | LONG, 0, 0, 0>(); }
+HARNESS h_x86line_w_lock() { line_case<0, 0, XACQ | XREL | LOCK, 0, 0, 0>(); }
+HARNESS h_x86line_w_rep() { line_case<0, 0, REP | REPNE | REX, 0, 0, 0>(); }
+HARNESS h_x86line_w_repreg() { line_case<0, 0, REP | REPNE | REX, 2, 0, 0>(); }
+HARNESS h_x86line_w_all() { line_case<0, ALL_WORDS, 0, 2, 0, 0>(); }
+HARNESS h_x86line_w_none() { line_case<0, 0, 0, 0, 0, 1>(); }
+HARNESS h_x86line_badid() { line_case<0, 0, 0, 0, 0, 2>(); }
+// ---- operands and decorations: constant options -----------------------------------------------------------------------------
+HARNESS h_x86line_n1() { line_case<1, 0, 0, 0, 0, 0>(); }
+HARNESS h_x86line_n2() { line_case<2, 0, 0, 0, 0, 0>(); }
+HARNESS h_x86line_n3() { line_case<3, 0, 0, 0, 0, 0>(); }
+HARNESS h_x86line_n6() { line_case<6, 0, 0, 0, 0, 0>(); }
